@@ -687,6 +687,9 @@ def run(p: Program, rep: Report, tier: str) -> None:
                 uses = {x.id for x in ast.walk(val) if isinstance(x, ast.Name)}
                 if isinstance(n, ast.AugAssign) and n.target.id in derived:
                     continue
+                # bookkeeping is arithmetic on the count; what a call returns (the bytes that were read) is not
+                if any(isinstance(x, ast.Call) and not (isinstance(x.func, ast.Name) and x.func.id in ("min", "max", "int", "abs")) for x in ast.walk(val)) or any(isinstance(x, ast.Await) for x in ast.walk(val)):
+                    continue
                 if uses & derived:
                     for t in tg:
                         if t.id not in derived:
